@@ -13,7 +13,7 @@ package verifharness
 //   watch <denom>                               -> ok          include a denomination in dumps
 //   regcoin <denom> <contract>                  -> ok          real RegisterCoin; <contract> = address it deployed (checked)
 //   addcoin <denom> <contract>                  -> ok          real AddCoin
-//   deploy <mb|dbm|mal|dd> <contract> <deployer> <init> -> ok  deploy a token contract of the repo (address checked)
+//   deploy <mb|dbm|mal|dd|fr> <contract> <deployer> <init> -> ok  deploy a token contract of the repo (address checked)
 //   regerc20 <contract> <denom>                 -> ok          real RegisterERC20; <denom> = voucher denomination it created (checked)
 //   tmint <contract> <caller> <to> <amt>        -> ok|err      EVM call mint(to, amt) by caller
 //   ttransfer <contract> <caller> <to> <amt>    -> ok|err      EVM call transfer(to, amt) by caller
@@ -353,8 +353,8 @@ func (w *c11World) deploy(kind string, deployer common.Address, init *big.Int) (
 	case "mal":
 		bin = erc20contracts.ERC20MaliciousDelayedContract.Bin
 		ctor, err = erc20contracts.ERC20MaliciousDelayedContract.ABI.Pack("", init)
-	case "dd":
-		bin = c11DoubleDebitBin()
+	case "dd", "fr":
+		bin = c11AdversarialBin(kind)
 	default:
 		return common.Address{}, fmt.Errorf("kind")
 	}
@@ -484,7 +484,11 @@ func (w *c11World) oracleMsg(r *Rec, m c11Msg, out string, s0, s1 *c11Snap, p c1
 		} else {
 			wantSupply, wantTSup = amt, zero
 			wantTok[ch+"|"+mH] = amt
-			wantTok[ch+"|"+sH] = neg
+			if w.kinds[p.addr] == "mb" {
+				// what the sender's own token contract charges the sender is outside the keeper's reach (it checks the
+				// escrow side); the sender side is demanded for the honest token only
+				wantTok[ch+"|"+sH] = neg
+			}
 		}
 	}
 	// sender side / receiver side exact
@@ -521,7 +525,7 @@ func (w *c11World) oracleMsg(r *Rec, m c11Msg, out string, s0, s1 *c11Snap, p c1
 		// the account the module moves tokens to/from must change by exactly the amount whatever the token does;
 		// third parties must be untouched for the honest token
 		if isParty {
-			if m.sender == m.receiver || (m.coin && m.receiver == w.module) || (!m.coin && m.sender == w.module) {
+			if (m.coin && m.receiver == w.module) || (!m.coin && m.sender == w.module) {
 				continue // degenerate self-conversion on the token side: covered by the supply/backing checks
 			}
 			if !c11Eq(d, exp) {
@@ -583,7 +587,9 @@ func (w *c11World) oracleBacking(r *Rec, s *c11Snap) {
 					c11Num(s.tsup[ch]), "<= "+sum.String())
 			}
 		case aggtypes.OWNER_EXTERNAL:
-			if w.kinds[c] != "mb" || len(p.denoms) != 1 {
+			// every token of the generator's set is "honest" in the sense of the theorem (`ExternalToken`): nobody but
+			// the module can lower the module's balance (no test ever lets a BURNER_ROLE holder burn the escrow)
+			if len(p.denoms) != 1 {
 				continue
 			}
 			v := s.supply[p.denoms[0]]
@@ -592,7 +598,7 @@ func (w *c11World) oracleBacking(r *Rec, s *c11Snap) {
 			}
 			b := s.tok[ch+"|"+c11Hex(w.module)]
 			if b == nil || v.Cmp(b) > 0 {
-				w.find(r, "C11:backing:external-pair", "voucher supply of external "+ch+" exceeds the tokens escrowed by the module", v.String(), "<= "+c11Num(b))
+				w.find(r, "C11:backing:external-pair:"+w.kinds[c], "voucher supply of external "+ch+" exceeds the tokens escrowed by the module", v.String(), "<= "+c11Num(b))
 			}
 		}
 	}
@@ -652,6 +658,9 @@ func (w *c11World) deliver(r *Rec, m c11Msg, validate func() error, handle func(
 	r.Count(k + cls)
 	if cls == "err" {
 		r.Count(k + out)
+		if out == "err aggregate:7" && p.found {
+			r.Count("rej7." + k + w.kinds[p.addr]) // post-check rejections per token kind
+		}
 	}
 	return out
 }
